@@ -1,4 +1,6 @@
 """C03 -- latex2text renders the core sublanguage by its documented rules, compositionally."""
+import unicodedata
+
 from hypothesis import strategies as st
 
 from .. import docgrammar
@@ -203,7 +205,7 @@ def item_list(draw, depth, in_math=False, allow_par=True, in_list_env=False, max
             items.append(['env', name, [None] if name != 'x' else [], body])
         elif kind == 'math':
             d = draw(st.sampled_from(docgrammar.MATH_DELIMS))
-            body = draw(item_list(depth - 1, True, d[0] not in ('$', '$$'), False, 4))
+            body = draw(item_list(depth - 1, True, False, False, 4))    # no blank line inside math
             if d[0] == '$' and docgrammar.render(body).strip() == '':
                 body = [['text', 'x']]
             if d[0] in ('$', '$$'):
@@ -300,14 +302,30 @@ def check_doc(ast, opts_list, res, case_base):
         try:
             want = opts_model(opts).text(ast)
         except Exception as e:
-            res.fail('c03:model-error', exc_detail(e), case)
-            return
+            from ..engine import HarnessError
+            raise HarnessError('reference model failed on %r: %s' % (src, exc_detail(e)))
         try:
             got = l2t(opts).latex_to_text(src, tolerant_parsing=False)
         except BaseException as e:
             res.fail(exc_key(e), exc_detail(e) + ' on %r' % src, case)
             continue
-        if got != want:
+        # canonically equivalent output (accents emitted decomposed) is the same text
+        got_n = unicodedata.normalize('NFC', got)
+        if got_n != unicodedata.normalize('NFC', want):
+            # the points the documentation leaves open (models.l2t_model.ALTERNATIVES)
+            ok = False
+            for alt in M.ALTERNATIVES[1:]:
+                mdl = opts_model(opts)
+                mdl.alt = alt
+                try:
+                    if unicodedata.normalize('NFC', mdl.text(ast)) == got_n:
+                        ok = True
+                        res.label('documentation-leaves-open:' + '+'.join(sorted(alt)))
+                        break
+                except Exception:
+                    pass
+            if ok:
+                continue
             i = 0
             while i < min(len(got), len(want)) and got[i] == want[i]:
                 i += 1
@@ -368,7 +386,7 @@ def run_shard(shard, res):
                 lambda ast: check_doc(ast, opts, res, {'kind': 'doc', 'ast': ast}), n, seed)
     else:
         _, n, seed = shard
-        doc = docgrammar.document_strategy(('default-noverb',), depth=2, max_size=3)
+        doc = docgrammar.document_strategy(('core-noverb',), depth=2, max_size=3)
         strat = st.tuples(doc, doc, st.sampled_from(ALL_OPTS))
         hyp_run(strat, lambda x: check_metamorphic(x[0], x[1], x[2], res), n, seed)
 
